@@ -541,3 +541,76 @@ func runC11_11(c *core.Ctx) {
 	c.Check(bad == token.NoPos && shortReturns > 0, f.Name, "short write reported", at, itoa(shortReturns)+" returns on the short-write edge, each with a non-nil error",
 		"WriteTo can return on the short-write edge (m < b.len()) with an error that is not established non-nil: the unwritten rest stays queued, but the caller is told the transfer succeeded")
 }
+
+func init() {
+	register(&core.Rule{ID: "C11.12", Prop: "C11", MinSites: 3,
+		Desc: "a linked node keeps its length: a node's buf is assigned (re-sliced, replaced) only while the node is outside the list – obtained from pop() or freshly made – because pop/pushFront/pushBack are what keep the byte counter equal to the sum of the linked segments; trimming a node in place (through head, tail, an iterator) makes Buffered() – and with it elastic.Buffer.Buffered and Conn.OutboundBuffered – overstate what is queued",
+		Run:  runC11_12})
+}
+
+func runC11_12(c *core.Ctx) {
+	a := llAnchors(c)
+	if a == nil {
+		return
+	}
+	bufF := c.P.Field(a.pk, "node", "buf")
+	if !c.Need("linkedlist.node.buf", bufF) {
+		return
+	}
+	for _, f := range a.funcs {
+		k := 0
+		ast.Inspect(f.Decl.Body, func(n ast.Node) bool {
+			as, ok := n.(*ast.AssignStmt)
+			if !ok {
+				return true
+			}
+			for _, l := range as.Lhs {
+				sel, ok := ast.Unparen(l).(*ast.SelectorExpr)
+				if !ok || flow.FieldOf(f.Info, sel) != bufF {
+					continue
+				}
+				k++
+				construct := exprStr(l) + " assigned #" + itoa(k)
+				who, _ := flow.ObjOf(f.Info, sel.X).(*types.Var)
+				if who == nil || who.IsField() {
+					c.Violate(f.Name, construct, as.Pos(), "the buffer of a node reached through "+exprStr(sel.X)+" – a node that is linked in the list – is assigned: the byte counter no longer equals the sum of the linked segments, so Buffered() (and OutboundBuffered) overstate what is queued")
+					continue
+				}
+				// every definition of the node variable takes it out of the list (pop) or makes it
+				okk, defs := true, 0
+				why := ""
+				ast.Inspect(f.Decl.Body, func(m ast.Node) bool {
+					d, ok := m.(*ast.AssignStmt)
+					if !ok {
+						return true
+					}
+					for i, dl := range d.Lhs {
+						if flow.ObjOf(f.Info, dl) != types.Object(who) || len(d.Lhs) != len(d.Rhs) {
+							continue
+						}
+						defs++
+						r := ast.Unparen(d.Rhs[i])
+						if call, ok := r.(*ast.CallExpr); ok && flow.IsCall(f.Info, call, a.pop) {
+							continue
+						}
+						if ue, ok := r.(*ast.UnaryExpr); ok && ue.Op == token.AND {
+							continue
+						}
+						okk, why = false, exprStr(r)
+					}
+					return true
+				})
+				if defs == 0 { // a parameter: pushFront/pushBack receive nodes that are outside the list
+					if f.Obj == a.pushFront || f.Obj == a.pushBack {
+						defs = 1
+					} else {
+						okk, why = false, "a parameter"
+					}
+				}
+				c.Check(okk && defs > 0, f.Name, construct, as.Pos(), "the node was taken out of the list by pop() (or is new) when its buffer changes",
+					"the buffer of node "+who.Name()+" is assigned while the node may still be linked in the list (it comes from "+why+", not from pop()): the byte counter no longer equals the sum of the linked segments, so Buffered() – and with it elastic.Buffer.Buffered and Conn.OutboundBuffered – overstate what is queued")
+			}
+			return true
+		})
+	}
+}
